@@ -661,7 +661,7 @@ class RegExFieldFormat(AbstractFieldFormat):
         super().__init__(field_name, is_allowed_to_be_empty, length, rule, data_format, empty_value="")
         try:
             self.regex = re.compile(rule, re.IGNORECASE | re.MULTILINE)
-        except (re.error, OverflowError, RecursionError) as error:
+        except (re.error, OverflowError, RecursionError, ValueError) as error:
             # Absurd repetition counts raise OverflowError, very deep nesting RecursionError.
             raise errors.InterfaceError("rule must be a valid regular expression: %s" % error)
 
